@@ -16,7 +16,14 @@ a_real = double.  Two kinds of code sit around those cores and are covered here:
                            print exactly the numbers computed here from the property's own statement.  Caller-owned arrays live in
                            one guarded pool (harness/glue/cfg_common.h).  What cannot be exact (pi, exp, pow, sqrt, the 1/6 of
                            the septic) is compared with a reference computed here, or between the configurations, with a tolerance
-                           suited to float (1e-5 relative + 1e-6 absolute) on well-conditioned arguments only.
+                           suited to float (1e-5 relative + 1e-6 absolute) on well-conditioned arguments only.  Two further kinds
+                           of cases: PRECISION cases (inputs with full 24-bit mantissas, identical in the three builds) must agree
+                           with the exact rational value of the documented equations within 2 x depth x machine epsilon OF THE
+                           CONFIGURATION x size of the terms (class S) - a `double` local or constant in the long double build, a
+                           `float` one in the double build, exceed that; EPSILON cases are fuzzy-controller steps whose only active
+                           set has a degree between the machine epsilons of two configurations, so that the expected gains differ
+                           between the builds (a set is active iff its degree exceeds A_REAL_EPSILON).  A `double` local in the
+                           FLOAT build only adds precision and cannot be seen by any of these.
 
 A difference is a VIOLATION with the failing case as replay (key "<function>/config-<real size>" or "<struct>::<member>/cxx-wrapper").
 """
@@ -139,6 +146,10 @@ def header_members(ctx, pid):
             cl_m, cl_ns = set(), set()
         else:
             cl_m, cl_ns, ce = cl
+            # the AST also holds the records of the headers this one includes: keep what this header's own text defines
+            own = set(re.findall(r"\bstruct\s+(a_\w+)\s*\{", text))
+            cl_m = set(sm for sm in cl_m if sm[0] in own)
+            cl_ns = set(sm for sm in cl_ns if re.search(r"\b%s\s*\(" % re.escape(sm[1]), text))
             callee.update(ce)
             how.append("%s: clang AST %d, regex %d" % (h, len(cl_m) + len(cl_ns), len(rx) + len(rx_ns)))
         for sm in rx | rx_ns | cl_m | cl_ns:
@@ -211,9 +222,17 @@ def cxx_wrappers(ctx, pid):
                 ctx.tie_broken("glue: harness/glue/cxx_%s.cpp (%s): %s" % (pid, REALNAME[real], ln))
         by_member = {}
         for ln in diffs:
-            m = re.match(r"DIFF (\S+?)::(\S+) args=(.*?) field=(\S+) cxx=(\S+) c=(\S+)$", ln)
+            m = re.match(r"DIFF (\S+?)::(\S+) args=(.*?) field=(.*?) cxx=(\S+) c=(\S+)\s*$", ln)
             if m:
                 by_member.setdefault((m.group(1), m.group(2)), []).append(m)
+            else:       # never drop a difference because its line has an unexpected shape
+                m2 = re.match(r"DIFF (\S+?)::(\S+)", ln)
+                key = "%s/cxx-wrapper" % (("%s::%s" % m2.groups()) if m2 else "unparsed")
+                if key not in seen_keys and nrep < MAX_REPORTS:
+                    seen_keys.add(key)
+                    nrep += 1
+                    ctx.report(key, "C++ member and C function differ (a_real = %s): %s" % (REALNAME[real], ln[:600]),
+                               {"differences": diffs[:8], "rerun": " ".join(cmd)})
         for (st, mem), ms in by_member.items():
             key = "%s::%s/cxx-wrapper" % (st, mem)
             if key in seen_keys or nrep >= MAX_REPORTS:
@@ -238,6 +257,9 @@ def cxx_wrappers(ctx, pid):
     ctx.cov["glue_cxx_trials_per_member"] = per_member
     ctx.cov["glue_cxx_configurations"] = [REALNAME[r] for r in reals]
     ctx.cov["glue_cxx_member_scan"] = how
+    # what each member's body calls in the header of THIS tree (from the AST), next to the C function the harness compares it with
+    ctx.cov["glue_cxx_header_callees"] = {"%s::%s" % sm: {"harness_compares_with": table.get(sm, "(not in the table)"),
+                                                          "header_body_calls": sorted(set(callee.get(sm, [])))} for sm in sorted(members)}
     ctx.cov["glue_cxx_rule"] = ("differential test, not a theorem: every C++ member function of the structs of %s (list read from the "
                                 "header by clang's C++ AST and by a regular expression on every run) is called on a generated object "
                                 "and the C function it stands for on a byte-identical copy; %d trials per member and configuration, "
@@ -339,7 +361,7 @@ def hexf(v):
     f = float(fr)
     if Fraction(f) != fr:
         raise Inexact("not a double: %s" % fr)
-    return f.hex()
+    return re.sub(r"\.?0*p", "p", f.hex())
 
 
 def dec(fr):
@@ -381,13 +403,19 @@ def parse_tok(t):
 
 
 class Case:
-    """line: what the driver reads.  expect: [(function, mode, value)] aligned with the driver's output tokens;
-    mode '=' exact, '~' within the float tolerance of value (a python reference), 'x' compared between the configurations
-    (value None), '?' ignored.  desc: human-readable inputs for the replay.  post: optional (real, values)->message."""
+    """line: what the driver reads.  expect: [(function, mode, value)] aligned with the driver's output tokens (or a dict
+    {real size: such a list} when the documented result depends on the configuration, e.g. through A_REAL_EPSILON);
+    mode '=' exact, '~' within the float tolerance of value (a python reference), 'p' within the rounding-error bound of the
+    configuration (value = S: exact result, size of the terms, depth), 'x' compared between the configurations (value None or the
+    size of the terms), '?' ignored.  desc: human-readable inputs for the replay.  post: optional (real, values)->message."""
     __slots__ = ("line", "fn", "expect", "desc", "post")
 
     def __init__(self, line, fn, expect, desc, post=None):
         self.line, self.fn, self.expect, self.desc, self.post = line, fn, expect, desc, post
+
+    def exp(self, real):
+        return self.expect[real] if isinstance(self.expect, dict) else self.expect
+
 
 
 def E(fn, vals):
@@ -404,8 +432,107 @@ def close(real, got, ref):
     if not isinstance(got, Fraction):
         return False
     rel, ab = (1e-5, 1e-6) if real == 4 else (1e-9, 1e-12)
+    scale = 0
+    if isinstance(ref, tuple):      # (reference, size of the terms it is the sum of)
+        ref, scale = ref
     ref = Fraction(ref)
-    return abs(got - ref) <= Fraction(rel) * abs(ref) + Fraction(ab)
+    return abs(got - ref) <= Fraction(rel) * max(abs(ref), Fraction(scale)) + Fraction(ab)
+
+
+EPS = {4: Fraction(1, 1 << 23), 8: Fraction(1, 1 << 52), 16: Fraction(1, 1 << 63)}
+
+
+class Unstable(Exception):
+    """a comparison of a precision case is too close to call in rounded arithmetic: the case is dropped"""
+
+
+class S:
+    """A value of a precision case: exact result v of the documented equations, m = what the same expression gives with every term
+    replaced by its magnitude (the size of the terms), d = depth of the expression.  Rounded evaluation in a format with machine
+    epsilon eps differs from v by at most about d * eps/2 * m; the comparison allows 2 * d * eps * m."""
+    __slots__ = ("v", "m", "d")
+
+    def __init__(self, v, m=None, d=0):
+        if isinstance(v, S):
+            v, m, d = v.v, v.m, v.d
+        self.v = Fraction(v)
+        self.m = abs(self.v) if m is None else Fraction(m)
+        self.d = d
+
+    @staticmethod
+    def of(o):
+        return o if isinstance(o, S) else S(o)
+
+    def __add__(self, o):
+        o = S.of(o)
+        return S(self.v + o.v, self.m + o.m, max(self.d, o.d) + 1)
+    __radd__ = __add__
+
+    def __sub__(self, o):
+        o = S.of(o)
+        return S(self.v - o.v, self.m + o.m, max(self.d, o.d) + 1)
+
+    def __rsub__(self, o):
+        return S.of(o) - self
+
+    def __mul__(self, o):
+        o = S.of(o)
+        return S(self.v * o.v, self.m * o.m, max(self.d, o.d) + 1)
+    __rmul__ = __mul__
+
+    def __truediv__(self, o):
+        o = S.of(o)
+        if o.v == 0 or o.m > 4 * abs(o.v):
+            raise Unstable("divisor suffers cancellation")
+        return S(self.v / o.v, (self.m * abs(o.v) + abs(self.v) * o.m) / (o.v * o.v), max(self.d, o.d) + 1)
+
+    def __rtruediv__(self, o):
+        return S.of(o) / self
+
+    def __neg__(self):
+        return S(-self.v, self.m, self.d)
+
+    def cmp(self, o):
+        o = S.of(o)
+        if abs(self.v - o.v) <= (self.m + o.m) / (1 << 16):
+            if self.v == o.v and self.d == 0 and o.d == 0:
+                return 0            # two inputs: compared exactly by every configuration
+            raise Unstable("comparison too close")
+        return -1 if self.v < o.v else 1
+
+    def __lt__(self, o): return self.cmp(o) < 0
+    def __le__(self, o): return self.cmp(o) <= 0
+    def __gt__(self, o): return self.cmp(o) > 0
+    def __ge__(self, o): return self.cmp(o) >= 0
+
+
+def ssqrt(a):
+    """square root of a precision value: the exact root to 2^-160 relative, the size of the terms d(sqrt a) = da / (2 sqrt a)"""
+    a = S.of(a)
+    if a.v <= 0 or a.m > 4 * a.v:
+        raise Unstable("sqrt of a cancelled or non-positive value")
+    k = 400
+    n = (a.v.numerator << k) // a.v.denominator
+    r = Fraction(math.isqrt(n << k), 1 << k)
+    return S(r, a.m / (2 * r) + r, a.d + 1)
+
+
+def P(fn, vals):
+    return [(fn, "p", S.of(v)) for v in vals]
+
+
+def close_p(real, got, ref, eps=None):
+    if not isinstance(got, Fraction):
+        return False
+    return abs(got - ref.v) <= 2 * max(ref.d, 1) * (eps or EPS[real]) * ref.m
+
+
+def f24(rng, lo, hi, sign=True):
+    """a value with a full 24-bit mantissa (exact in every configuration, not in fewer bits), magnitude in [lo, hi)"""
+    v = math.exp(rng.uniform(math.log(lo), math.log(hi)))
+    m, e = math.frexp(v)
+    fr = Fraction((int(m * (1 << 24)) | 1) , 1 << 24) * Fraction(2) ** e
+    return -fr if sign and rng.random() < 0.5 else fr
 
 
 def _build_cfg(ctx, pid, real):
@@ -422,7 +549,7 @@ def run_cases(ctx, pid, cases, reals=(4, 8, 16)):
     except vlib.CheckError as e:
         ctx.tie_broken("glue: the configuration-sweep driver harness/glue/cfg_%s.c does not build in one of the configurations "
                        "A_SIZE_REAL=4/8/16: %s" % (pid, " ".join(str(e).split())[-700:]))
-        return {}
+        return {}, {}
     lines = [c.line for c in cases]
     outs, crashes = {}, {}
 
@@ -443,7 +570,10 @@ def run_cases(ctx, pid, cases, reals=(4, 8, 16)):
         ctx.report(key, what, replay)
 
     def replay_of(c, real, got, i=None):
-        exp = [("%s %s" % (m, dec(v) if isinstance(v, Fraction) else v)) for _, m, v in c.expect]
+        exp = [("%s %s" % (m, dec(v) if isinstance(v, Fraction) and m == "=" else repr(float(v[0])) if isinstance(v, tuple) else
+                           repr(float(v)) if m == "~" else "" if m == "?" else
+                           "%r (size of the terms %.6g, depth %d)" % (float(v.v), float(v.m), v.d) if m == "p" else
+                           "(between the configurations)")).strip() for _, m, v in c.exp(real)]
         return {"case_line": c.line, "inputs": c.desc, "configuration": "A_SIZE_REAL=%d (a_real = %s)" % (real, REALNAME[real]),
                 "expected": exp, "got": [dec(g) if isinstance(g, Fraction) else str(g) for g in got], "first_difference_at_output": i,
                 "rerun": "printf '%%s\\n' '%s' | %s   # driver harness/glue/cfg_%s.c built by tools/vglue.py with -DA_SIZE_REAL=%d, "
@@ -480,11 +610,21 @@ def run_cases(ctx, pid, cases, reals=(4, 8, 16)):
                        "(block name, byte offset from its start, block size)" % (fn, REALNAME[real], guards[0]),
                        dict(replay_of(c, real, vals), damaged_guards=guards))
                 continue
-            if len(vals) != len(c.expect):
+            if len(vals) != len(c.exp(real)):
                 report("%s/config-%d" % (c.fn, real), "%s built with a_real = %s: %d output values, %d expected"
-                       % (c.fn, REALNAME[real], len(vals), len(c.expect)), replay_of(c, real, vals))
+                       % (c.fn, REALNAME[real], len(vals), len(c.exp(real))), replay_of(c, real, vals))
                 continue
-            for i, ((fn, mode, v), g) in enumerate(zip(c.expect, vals)):
+            for i, ((fn, mode, v), g) in enumerate(zip(c.exp(real), vals)):
+                if mode == "p" and not close_p(real, g, v):
+                    report("%s/config-%d" % (fn, real),
+                           "%s built with a_real = %s: output %d of the case is %s, the exact value of the documented equations is %r; the "
+                           "difference %.3g is %.1f times the rounding-error allowance of this configuration (2 x depth %d x epsilon 2^%d x "
+                           "size of the terms %.6g): precision is being lost (a narrower local, constant or cast?); inputs %s"
+                           % (fn, REALNAME[real], i, ("%.21g" % float(g)) if isinstance(g, Fraction) else g, float(v.v),
+                              float(abs(g - v.v)) if isinstance(g, Fraction) else float("nan"),
+                              float(abs(g - v.v) / (2 * max(v.d, 1) * EPS[real] * v.m)) if isinstance(g, Fraction) and v.m else float("inf"),
+                              v.d, {4: -23, 8: -52, 16: -63}[real], float(v.m), c.desc), replay_of(c, real, vals, i))
+                    break
                 if mode == "=" and g != v:
                     report("%s/config-%d" % (fn, real),
                            "%s built with a_real = %s: output %d of the case is %s, the documented equations give exactly %s (every "
@@ -494,8 +634,9 @@ def run_cases(ctx, pid, cases, reals=(4, 8, 16)):
                 if mode == "~" and not close(real, g, v):
                     report("%s/config-%d" % (fn, real),
                            "%s built with a_real = %s: output %d of the case is %s, the reference value is %r (tolerance %s); inputs %s"
-                           % (fn, REALNAME[real], i, float(g) if isinstance(g, Fraction) else g, float(v),
-                              "1e-5 rel + 1e-6 abs" if real == 4 else "1e-9 rel + 1e-12 abs", c.desc), replay_of(c, real, vals, i))
+                           % (fn, REALNAME[real], i, float(g) if isinstance(g, Fraction) else g, float(v[0] if isinstance(v, tuple) else v),
+                              ("1e-5 x size of the terms + 1e-6" if real == 4 else "1e-9 x size of the terms + 1e-12") +
+                              (" (size of the terms %g)" % float(v[1]) if isinstance(v, tuple) else ""), c.desc), replay_of(c, real, vals, i))
                     break
             else:
                 if c.post:
@@ -511,13 +652,14 @@ def run_cases(ctx, pid, cases, reals=(4, 8, 16)):
                 continue
             for idx, c in enumerate(cases):
                 a, b = parsed[real][idx], parsed[8][idx]
-                if a is None or b is None or len(a) != len(c.expect) or len(b) != len(c.expect):
+                if a is None or b is None or len(a) != len(c.exp(real)) or len(b) != len(c.exp(8)):
                     continue
-                for i, (fn, mode, v) in enumerate(c.expect):
+                for i, (fn, mode, v) in enumerate(c.exp(real)):
                     if mode != "x":
                         continue
                     tol = 4 if real == 4 else 8
-                    if not (isinstance(a[i], Fraction) and isinstance(b[i], Fraction) and close(4 if real == 4 else 8, a[i], b[i])):
+                    sc = v(b) if callable(v) else (v or 0)     # size of the terms (may depend on the double build's own outputs)
+                    if not (isinstance(a[i], Fraction) and isinstance(b[i], Fraction) and close(4 if real == 4 else 8, a[i], (b[i], sc))):
                         report("%s/config-%d" % (fn, real),
                                "%s: output %d of the case is %s with a_real = %s but %s with a_real = double (well-conditioned arguments, "
                                "tolerance %s); inputs %s"
@@ -526,7 +668,32 @@ def run_cases(ctx, pid, cases, reals=(4, 8, 16)):
                                   "1e-5 rel + 1e-6 abs" if tol == 4 else "1e-9 rel + 1e-12 abs", c.desc),
                                dict(replay_of(c, real, a, i), double_build_output=[dec(g) if isinstance(g, Fraction) else str(g) for g in b]))
                         break
-    return {real: len(cases) - len([1 for i, m in crashes[real]]) for real in reals}
+    return {real: len(cases) - len([1 for i, m in crashes[real]]) for real in reals}, bins
+
+
+# fixed probes of observations outside the properties' statements: function(ctx, bins) -> None | (what, replay)
+def probe_bfuzz_alignment(ctx, bins):
+    """long double build: a_pid_fuzzy_set_bfuzz(ctx, ptr, num) puts the value region at ptr + 2 * sizeof(unsigned) * num; for an odd num
+    that is 8 mod 16, misaligned for long double.  C13 speaks of values, gains and of the scratch block not being overrun, not of
+    alignment: this is an observation, not a violation; the regular sweep uses even num only."""
+    c = gen_fuzzy_cases(random.Random(13), 1)[0]
+    t = c.line.split()
+    t[2] = "3"
+    line = " ".join(t)
+    res = {}
+    for real in (4, 8, 16):
+        rc, out, err = vlib.sh2([str(bins[real])], stdin=line + "\n", timeout=60)
+        res[real] = (rc, [l for l in err.splitlines() if "runtime error" in l or "ERROR" in l][:2])
+    if res[16][0] != 0 and any("misaligned" in l for l in res[16][1]):
+        return ("a_pid_fuzzy_set_bfuzz with an odd num (3) in the long double build places the value region at ptr + 8 * num, which is not a "
+                "multiple of 16: %s (block of exactly A_PID_FUZZY_BFUZZ(3) bytes, 16-byte aligned; float and double builds: rc %d / %d)"
+                % (re.sub(r"0x[0-9a-f]{6,}", "<address>", " ".join(res[16][1][0].split()))[:300], res[4][0], res[8][0]),
+                {"case_line": line, "configuration": "A_SIZE_REAL=16", "stderr": res[16][1],
+                 "rerun": "printf '%%s\\n' '%s' | %s" % (line, bins[16])})
+    return None
+
+
+PROBES = {"C13": [("a_pid_fuzzy_set_bfuzz/config-16-odd-num-misaligned", probe_bfuzz_alignment)]}
 
 
 def config_sweep(ctx, pid):
@@ -534,24 +701,42 @@ def config_sweep(ctx, pid):
     rng = random.Random(ctx.subseed("glue_cfg_" + pid))
     scale = 1 if ctx.quick else 10
     cases, note = GENERATORS[pid](rng, scale)
-    ran = run_cases(ctx, pid, cases)
+    ran, bins = run_cases(ctx, pid, cases)
+    # fixed probes of things seen on the unchanged tree that lie OUTSIDE the property's statement: never a violation, never a known
+    # finding - an observation in the evidence and one log line
+    for key, fn in (PROBES.get(pid, []) if bins else []):
+        r = fn(ctx, bins)
+        if r is not None:
+            ctx.cov.setdefault("glue_cfg_observations_outside_property", []).append("%s: %s" % (key, r[0]))
+            ctx.log("observation outside the property (recorded in the evidence, not reported): %s: %s" % (key, r[0][:400]))
     kinds = {}
     for c in cases:
         kinds[c.fn] = kinds.get(c.fn, 0) + 1
-    nexact = sum(1 for c in cases if all(m in "=?" for _, m, _ in c.expect))
+    nexact = sum(1 for c in cases if all(m in "=?" for _, m, _ in c.exp(8)))
+    nprec = sum(1 for c in cases if any(m == "p" for _, m, _ in c.exp(8)))
     ctx.cov["glue_cfg_cases_per_configuration"] = {REALNAME[r]: n for r, n in ran.items()}
     ctx.cov["glue_cfg_cases_by_entry_point"] = kinds
     ctx.cov["glue_cfg_exact_cases"] = nexact
-    ctx.cov["glue_cfg_tolerance_cases"] = len(cases) - nexact
+    ctx.cov["glue_cfg_precision_cases"] = nprec
+    ctx.cov["glue_cfg_tolerance_cases"] = len(cases) - nexact - nprec
     ctx.cov["glue_cfg_rule"] = ("differential test, not a theorem: one driver generic in a_real built with A_SIZE_REAL = 4, 8, 16 and "
                                 "-fsanitize=address,undefined from the current tree; exact cases (small integers / dyadic rationals, every "
                                 "intermediate of the documented equations within %d bits of mantissa, computed here with exact fractions) "
                                 "must print exactly the expected numbers in all three builds; caller-owned arrays in one pool with guard "
-                                "bytes between and around them, histories pre-filled with the poison value 777; " % BITS + note)
+                                "bytes between and around them, histories pre-filled with the poison value 777; precision cases (inputs with full 24-bit "
+                                "mantissas, identical in every build) must agree with the exact rational value of the documented equations within "
+                                "2 x depth x machine epsilon of the configuration x size of the terms, which a narrower local, constant or cast "
+                                "in the double / long double build exceeds; " % BITS + note)
     ctx.count(evaluations=sum(ran.values()))
     ctx.assumptions.append("glue (configurations): differential test on generated exact cases and toleranced comparisons, no proof; the "
                            "float and long double builds are not modelled in Rocq")
     ctx.log("glue config_sweep: %d cases x %d configurations (%d exact), %.1fs" % (len(cases), len(ran), nexact, time.time() - t0))
+
+
+def glue(ctx, pid):
+    """Both glue runs of a property: the one line the checks call at the end of run(ctx)."""
+    cxx_wrappers(ctx, pid)
+    config_sweep(ctx, pid)
 
 
 # ---------------------------------------------------------------------------------------------------------------------
@@ -662,9 +847,1079 @@ def gen_C16(rng, scale):
         hp = 1 / (2 * math.pi * float(fc) * float(ts) + 1)
         exp = A("a_lpf_gen", [lp]) + A("a_hpf_gen", [hp]) + A("A_LPF_GEN", [lp]) + A("A_HPF_GEN", [hp]) + E("A_LPF_2", [0]) + E("A_HPF_2", [0, 0])
         cases.append(Case("gen %s %s" % (hexf(fc), hexf(ts)), "a_lpf_gen", exp, {"fc": dec(fc), "ts": dec(ts)}))
-    return cases, ("C16: a_tf_init/set_num/set_den/iter/zero with orders 0..6 x 0..5 (delay lines re-poisoned before the setters), "
+    cases += prec_C16(rng, 80 * scale)
+    return cases, ("C16: precision cases: a_tf_iter, a_lpf_iter, a_hpf_iter on full-mantissa coefficients and inputs.  a_tf_init/set_num/set_den/iter/zero with orders 0..6 x 0..5 (delay lines re-poisoned before the setters), "
                    "a_lpf/a_hpf init/iter/zero exact; a_lpf_gen/a_hpf_gen and the A_LPF_2/A_HPF_2 initialisers use pi and are compared with "
                    "a binary64 reference (1e-3 <= fc*ts <= 1e2) within 1e-5 relative + 1e-6 absolute for float, 1e-9 + 1e-12 otherwise")
 
 
-GENERATORS = {"C16": gen_C16}
+# ------------------------------------------------------------------------------------------------------------ C15
+def solve_boundary(order, ts, bc0, bc1):
+    """Coefficients c0..c_order of the polynomial whose derivatives 0..(order-1)/2 at 0 are bc0 and at ts are bc1 (exact
+    fractions, Gaussian elimination): the property's own statement, independent of the closed forms in the C."""
+    n = order + 1
+    half = n // 2
+    rows = []
+    for d in range(half):        # d-th derivative at 0 and at ts
+        r0, r1 = [Fraction(0)] * n, [Fraction(0)] * n
+        for i in range(d, n):
+            f = Fraction(math.factorial(i), math.factorial(i - d))
+            if i == d:
+                r0[i] = f
+            r1[i] = f * ts ** (i - d)
+        rows.append(r0 + [bc0[d]])
+        rows.append(r1 + [bc1[d]])
+    m = [list(r) for r in rows]
+    for c in range(n):
+        piv = next(r for r in range(c, n) if m[r][c] != 0)
+        m[c], m[piv] = m[piv], m[c]
+        pv = m[c][c]
+        m[c] = [v / pv for v in m[c]]
+        for r in range(n):
+            if r != c and m[r][c] != 0:
+                f = m[r][c]
+                m[r] = [a - f * b for a, b in zip(m[r], m[c])]
+    return [m[i][n] for i in range(n)]
+
+
+def horner(cs, x):
+    """S_n = a_n, S_i = x S_{i+1} + a_i (a/poly.h), every step checked"""
+    y = X(cs[-1])
+    for c in reversed(cs[:-1]):
+        y = y * X(x) + X(c)
+    return y
+
+
+def deriv(cs, d):
+    out = list(cs)
+    for _ in range(d):
+        out = [out[i] * i for i in range(1, len(out))]
+    return out
+
+
+def gen_C15(rng, scale):
+    cases = []
+    names = {3: ("pos", "vel", "acc"), 5: ("pos", "vel", "acc"), 7: ("pos", "vel", "acc", "jer")}
+    want = {3: 130 * scale, 5: 130 * scale, 7: 90 * scale}
+    for order in (3, 5, 7):
+        got = 0
+        while got < want[order]:
+            half = (order + 1) // 2
+            ts = Fraction(2) ** rng.choice([-2, -1, 0, 0, 1, 1, 2])
+            lim = 6 if order < 7 else 4
+            # pairwise distinct, non-zero boundary data: p0 p1 v0 v1 [a0 a1 [j0 j1]]
+            vals = rng.sample([v for v in range(-lim * 2, lim * 2 + 1) if v != 0], 2 * half)
+            bc = [Fraction(v, rng.choice([1, 1, 2])) for v in vals]
+            bc0, bc1 = bc[0::2], bc[1::2]
+            cs = solve_boundary(order, ts, bc0, bc1)
+            fn = "a_trajpoly%d" % order
+            xs_pool = [Fraction(0), ts, ts / 2, ts / 4, Fraction(1), Fraction(2), -ts / 2, ts * 3 / 4, ts + 1]
+            args = [ts]
+            for a, b in zip(bc0, bc1):
+                args += [a, b]
+            desc = {"ts": dec(ts), "boundary (value at 0, value at ts) for p, v, a, j": [(dec(a), dec(b)) for a, b in zip(bc0, bc1)]}
+            if order < 7:
+                if not all(fits(c) for c in cs):
+                    continue
+                exp = E(fn + "_gen", cs)
+                xs = []
+                for x in rng.sample(xs_pool, 5):
+                    try:
+                        row = [horner(deriv(cs, d), x) for d in range(len(names[order]))]
+                    except Inexact:
+                        continue
+                    xs.append(x)
+                    for nm, v in zip(names[order], row):
+                        exp.extend(E("%s_%s" % (fn, nm), [v]))
+                try:
+                    for d in range(3):
+                        exp.extend(E("%s_c%d" % (fn, d), [X(c) for c in deriv(cs, d)]))
+                except Inexact:
+                    continue
+            else:
+                # the septic multiplies by (a_real)(1.0/6): never exact; reference = the exact solution, tolerance scaled by the size of
+                # the terms (the property allows rounding error proportional to the size of the boundary data)
+                exp = [(fn + "_gen", "~", (c, max(abs(v) for v in cs))) for c in cs]
+                xs = rng.sample(xs_pool, 4)
+                for x in xs:
+                    for d, nm in enumerate(names[order]):
+                        dc = deriv(cs, d)
+                        ref = sum(c * x ** i for i, c in enumerate(dc))
+                        mag = sum(abs(c * x ** i) for i, c in enumerate(dc))
+                        exp.append(("%s_%s" % (fn, nm), "~", (ref, mag)))
+                for d in range(4):
+                    dc = deriv(cs, d)
+                    exp.extend(("%s_c%d" % (fn, d), "~", (c, max(abs(v) for v in dc))) for c in dc)
+            cases.append(Case(" ".join(["p%d" % order] + [hexf(v) for v in args + xs]), fn + "_gen", exp, dict(desc, x=[dec(x) for x in xs])))
+            got += 1
+    # Horner evaluation in both coefficient orders, order reversal
+    for k in range(90 * scale):
+        n = rng.choice([0, 1, 1, 2, 3, 4, 5, 6, 8])
+        a = [dy(rng, -5, 5, rng.choice([0, 0, 1, 2])) for _ in range(n)]
+        x = dy(rng, -3, 3, rng.choice([0, 1, 2]))
+        try:
+            ev = horner(a, x) if n else X(0)
+            er = horner(a[::-1], x) if n else X(0)
+        except Inexact:
+            continue
+        exp = E("a_poly_eval", [ev]) + E("a_poly_evar", [er])
+        if n:
+            exp += E("a_poly_eval_", [ev]) + E("a_poly_evar_", [er])
+        exp += E("a_poly_swap", a[::-1]) + E("a_poly_swap_", a)
+        cases.append(Case(" ".join(["poly", str(n)] + [hexf(v) for v in a] + [hexf(x)]), "a_poly_eval", exp,
+                          {"coefficients": [dec(v) for v in a], "x": dec(x)}))
+    # normal-equation helpers: A[r][c] = sum_i x_i^(r+c), b[d] = sum_i x_i^d y_i (integer data: powers and sums exact)
+    for k in range(40 * scale):
+        m, n = rng.randint(0, 5), rng.randint(0, 4)
+        xv = [Fraction(rng.choice([-3, -2, -1, 1, 2, 3, 4])) for _ in range(m)]
+        yv = [Fraction(rng.randint(-6, 6)) for _ in range(m)]
+        try:
+            A_ = [X(sum(X(v ** (r + c)).v for v in xv)) for r in range(n) for c in range(n)]
+            b_ = [X(sum((X(v ** d) * X(y)).v for v, y in zip(xv, yv))) for d in range(n)]
+        except Inexact:
+            continue
+        cases.append(Case(" ".join(["xtx", str(m)] + [hexf(v) for v in xv] + [str(n)]), "a_poly_xTx", E("a_poly_xTx", A_),
+                          {"x": [dec(v) for v in xv], "n": n}))
+        cases.append(Case(" ".join(["xty", str(m)] + [hexf(v) for v in xv + yv] + [str(n)]), "a_poly_xTy", E("a_poly_xTy", b_),
+                          {"x": [dec(v) for v in xv], "y": [dec(v) for v in yv], "n": n}))
+    cases += prec_C15(rng, 90 * scale)
+    return cases, ("C15: precision cases: Horner in both orders and the cubic / quintic / septic generators, evaluators and coefficient "
+                   "accessors on full-mantissa data against the exact solution (the septic's binary64 constants (a_real)(1.0/2), (a_real)(1.0/6) "
+                   "limit its long double build to binary64 accuracy: allowance 2^11 larger there).  cubic and quintic generators with ts a power of two and small dyadic boundary data (all pairwise distinct, non-zero), "
+                   "expected coefficients from an exact solve of the boundary conditions (not from the closed forms in the C), pos/vel/acc by "
+                   "the documented Horner recurrences at x in {0, ts/4, ts/2, 3ts/4, ts, ts+1, 1, 2, -ts/2}, c0/c1/c2 into exactly sized guarded "
+                   "arrays; a_poly_eval/evar/swap (and the pointer-pair forms) for 0..8 coefficients, a_poly_xTx/xTy on integer data: all "
+                   "exact. The septic multiplies by (a_real)(1.0/6) and is never exact: its coefficients, pos/vel/acc/jer and c0..c3 are compared "
+                   "with the exact solution within 1e-5 (float; 1e-9 otherwise) of the size of the terms")
+
+
+# ------------------------------------------------------------------------------------------------------------ C12 / C13
+def pid_step(st, par, mode, set_, fdb, N=X):
+    """One step of the documented difference equations (a/pid.h) on exact values.  st: dict sum out var fdb err (X);
+    par: dict kp ki kd summax summin outmax outmin.  mode 0 run, 1 pos, 2 inc, 3 zero.  Returns the value the C returns.
+    N: X (exact case, every step checked) or S (precision case: value, size of the terms, depth)."""
+    if mode == 3:
+        for k in ("sum", "out", "var", "fdb", "err"):
+            st[k] = N(0)
+        return st["out"]
+    set_, fdb = N(set_), N(fdb)
+    err = set_ - fdb
+    var = st["fdb"] - fdb
+    if mode == 0:
+        out = sat(set_, par["outmin"], par["outmax"])
+    elif mode == 1:
+        # the integrator stops once outside its clamp unless the error drives it back
+        if (st["sum"] > par["summin"] and st["sum"] < par["summax"]) or st["sum"].v * err.v < 0:
+            st["sum"] = st["sum"] + par["ki"] * err
+        out = sat(par["kp"] * err + st["sum"] + par["kd"] * var, par["outmin"], par["outmax"])
+    else:
+        out = sat(st["out"] + par["kp"] * (err - st["err"]) + par["ki"] * err + par["kd"] * (var - st["var"]), par["outmin"], par["outmax"])
+    st["out"], st["var"], st["fdb"], st["err"] = N(out), var, fdb, err
+    return st["out"]
+
+
+def c_abs(x):
+    return -x if x < 0 else x
+
+
+def neuro_step(st, n, mode, set_, fdb):
+    """the recurrences of the proved model coq/C12/PidDefs.v (neuro_run / neuro_inc / neuro_zero); mode 0 run, 1 inc, 2 zero"""
+    if mode == 2:
+        pid_step(st, n, 3, 0, 0)
+        n["ec"] = X(0)
+        return st["out"]
+    set_, fdb = X(set_), X(fdb)
+    e = set_ - fdb
+    ec = e - st["err"]
+    if mode == 0:
+        pid_step(st, n, 0, set_, fdb)
+        n["ec"] = ec
+        return st["out"]
+    v = ec - n["ec"]
+    o = e * st["out"]
+    wp = n["wp"] + n["kp"] * o * n["ec"]
+    wi = n["wi"] + n["ki"] * o * st["err"]
+    wd = n["wd"] + n["kd"] * o * st["var"]
+    den = c_abs(wp) + c_abs(wi) + c_abs(wd)
+    o2 = n["k"] * (wp * ec + wi * e + wd * v) / den
+    st["out"], st["var"], st["fdb"], st["err"] = X(sat(o2, n["outmin"], n["outmax"])), v, fdb, e
+    n["wp"], n["wi"], n["wd"], n["ec"] = wp, wi, wd, ec
+    return st["out"]
+
+
+NPAR = {1: 2, 2: 4, 3: 3, 4: 2, 5: 4, 6: 4, 7: 4, 8: 3, 9: 2, 10: 2, 11: 2, 12: 2, 13: 4}
+
+
+def mf_exact(tag, x, p, N=X):
+    """documented piecewise shapes of a/mf.h for the polynomial families (exact values; N as in pid_step)"""
+    X = N       # noqa: N806 - the body below is written with X
+    x = X(x)
+    p = [X(v) for v in p]
+    if tag == 7:        # trap a b c d
+        a, b, c, d = p
+        if x < b:
+            return (x - a) / (b - a) if x > a else X(0)
+        if x > c:
+            return (d - x) / (d - c) if x < d else X(0)
+        return X(1)
+    if tag == 8:        # tri a b c
+        a, b, c = p[:3]
+        if x < b:
+            return (x - a) / (b - a) if x > a else X(0)
+        if x > b:
+            return (c - x) / (c - b) if x < c else X(0)
+        return X(1)
+    if tag == 9:        # lins
+        a, b = p[:2]
+        return X(0) if x < a else X(1) if x >= b else (x - a) / (b - a)
+    if tag == 10:       # linz
+        a, b = p[:2]
+        return X(1) if x < a else X(0) if x >= b else (b - x) / (b - a)
+    if tag == 11:       # s
+        a, b = p[:2]
+        if x <= a:
+            return X(0)
+        if x >= b:
+            return X(1)
+        if x > (a + b) / 2:
+            t = (b - x) / (b - a)
+            return 1 - 2 * (t * t)
+        t = (x - a) / (b - a)
+        return 2 * (t * t)
+    if tag == 12:       # z
+        a, b = p[:2]
+        if x >= b:
+            return X(0)
+        if x <= a:
+            return X(1)
+        if x < (a + b) / 2:
+            t = (x - a) / (b - a)
+            return 1 - 2 * (t * t)
+        t = (b - x) / (b - a)
+        return 2 * (t * t)
+    if tag == 13:       # pi a b c d
+        a, b, c, d = p
+        if x < b:
+            return mf_exact(11, x, [a, b], N)
+        if x > c:
+            return mf_exact(12, x, [c, d], N)
+        return X(1)
+    raise ValueError(tag)
+
+
+def mf_float(tag, x, p):
+    """binary64 reference of the exp / pow families"""
+    sig = lambda x, a, c: 1 / (1 + math.exp(-a * (x - c)))
+    gauss = lambda x, s, c: math.exp(-((x - c) ** 2) / (2 * s * s))
+    if tag == 1:
+        return gauss(x, p[0], p[1])
+    if tag == 2:
+        return gauss(x, p[0], p[1]) if x < p[1] else gauss(x, p[2], p[3]) if x > p[3] else 1.0
+    if tag == 3:
+        return 1 / (1 + abs((x - p[2]) / p[0]) ** (2 * p[1]))
+    if tag == 4:
+        return sig(x, p[0], p[1])
+    if tag == 5:
+        return sig(x, p[0], p[1]) - sig(x, p[2], p[3])
+    if tag == 6:
+        return sig(x, p[0], p[1]) * sig(x, p[2], p[3])
+    raise ValueError(tag)
+
+
+def fuzzy_op(k, a, b):
+    """exact fuzzy operators of a/fuzzy.h (equ is not exact: None)"""
+    if k == 1:
+        return a if a < b else b
+    if k == 2:
+        return a * b
+    if k == 3:
+        c = a + b - 1
+        return c if c > 0 else X(0)
+    if k == 4:
+        return a if a > b else b
+    if k == 5:
+        return a + b - a * b
+    if k == 6:
+        c = a + b
+        return c if c < 1 else X(1)
+    return None
+
+
+def fuzzy_table(rng, nrule, w):
+    """Ordered sets on the grid of width w (a power of two): a falling shoulder, triangles, a rising shoulder - the breakpoints of
+    neighbours coincide, so at most two sets are active and their degrees add up to one.  Returns (flat table, [(tag, params)])."""
+    c0 = -w * (nrule - 1) / 2
+    if nrule % 2 == 0:
+        c0 = -w * (nrule // 2) + w * rng.choice([0, 1])
+    sets = []
+    for i in range(nrule):
+        c = Fraction(c0 + i * w)
+        if i == 0:
+            sets.append(rng.choice([(10, [c, c + w]), (7, [c - 8 * w, c - 4 * w, c, c + w])]))
+        elif i == nrule - 1:
+            sets.append(rng.choice([(9, [c - w, c]), (7, [c - w, c, c + 4 * w, c + 8 * w])]))
+        else:
+            sets.append((8, [c - w, c, c + w]))
+    flat = []
+    for t, ps in sets:
+        flat += [Fraction(t)] + ps
+    return flat, sets
+
+
+def fuzzy_gains(f, e, ec):
+    """base gains + weighted mean of the consequents of the active rules (exact), or Inexact"""
+    act_e = [(i, mf_exact(t, e, ps)) for i, (t, ps) in enumerate(f["me"])]
+    act_e = [(i, y) for i, y in act_e if y > 0]
+    act_c = [(i, mf_exact(t, ec, ps)) for i, (t, ps) in enumerate(f["mec"])]
+    act_c = [(i, y) for i, y in act_c if y > 0]
+    for _, y in act_e + act_c:
+        if y < Fraction(1, 1024):       # far above every configuration's A_REAL_EPSILON: the active sets do not depend on a_real
+            raise Inexact("degree too close to epsilon")
+    if len(act_e) > f["nfuzz"] or len(act_c) > f["nfuzz"]:
+        raise Inexact("more active sets than the scratch block was sized for")
+    d = [X(0), X(0), X(0)]
+    if act_e and act_c:
+        mat = [[fuzzy_op(f["opr"], ye, yc) for _, yc in act_c] for _, ye in act_e]
+        tot = X(0)
+        for row in mat:
+            for m in row:
+                tot = tot + m
+        if tot > 0:
+            inv = 1 / tot
+            for k, tab in enumerate((f["mkp"], f["mki"], f["mkd"])):
+                if tab is None:
+                    continue
+                acc = X(0)
+                for (i, _), row in zip(act_e, mat):
+                    for (j, _), m in zip(act_c, row):
+                        acc = acc + m * X(tab[i * f["nrule"] + j])
+                d[k] = acc * inv
+    return f["kp"] + d[0], f["ki"] + d[1], f["kd"] + d[2]
+
+
+def gen_fuzzy_cases(rng, count):
+    cases = []
+    tries = 0
+    while len(cases) < count and tries < count * 60:
+        tries += 1
+        nrule = rng.choice([2, 3, 3, 4, 5])
+        w = Fraction(rng.choice([1, 2, 2, 4]))
+        me_flat, me = fuzzy_table(rng, nrule, w)
+        mec_flat, mec = fuzzy_table(rng, nrule, w * rng.choice([1, 2]))
+        nfuzz = rng.choice([2, 2, 4])
+        opr = rng.choice([1, 2, 2, 2, 3, 4, 5, 6])
+        mask = rng.choice([7, 7, 7, 1, 2, 4, 5, 0])
+        nn = nrule * nrule
+        vals = rng.sample(range(-3 * nn - 3, 3 * nn + 4), 3 * nn)
+        tabs = [[Fraction(v, 2) for v in vals[k * nn:(k + 1) * nn]] for k in range(3)]
+        base = [Fraction(v, 2) for v in rng.sample(range(1, 12), 3)]
+        tight = rng.random() < 0.25
+        lim = [Fraction(rng.randint(2, 6)), -Fraction(rng.randint(2, 6)), Fraction(rng.randint(4, 9)), -Fraction(rng.randint(4, 9))] if tight else \
+              [Fraction(rng.randint(40, 60)), -Fraction(rng.randint(40, 60)), Fraction(rng.randint(200, 300)), -Fraction(rng.randint(200, 300))]
+        f = {"nrule": nrule, "nfuzz": nfuzz, "opr": opr, "me": me, "mec": mec, "kp": X(base[0]), "ki": X(base[1]), "kd": X(base[2]),
+             "mkp": tabs[0] if mask & 1 else None, "mki": tabs[1] if mask & 2 else None, "mkd": tabs[2] if mask & 4 else None}
+        par = {"kp": f["kp"], "ki": f["ki"], "kd": f["kd"], "summax": X(lim[0]), "summin": X(lim[1]), "outmax": X(lim[2]), "outmin": X(lim[3])}
+        st = {k: X(0) for k in ("sum", "out", "var", "fdb", "err")}
+        toks = ["fuzzy", str(nrule), str(nfuzz), str(opr), str(mask), str(len(me_flat)), str(len(mec_flat))]
+        toks += [hexf(v) for v in base + lim + me_flat + mec_flat + tabs[0] + tabs[1] + tabs[2]]
+        exp = E("a_pid_fuzzy_bfuzz", [1])
+        steps, active = [], 0
+        try:
+            for _ in range(rng.randint(2, 7)):
+                mode = rng.choice([0, 1, 1, 2, 2, 3])
+                set_, fdb = dy(rng, -4, 4, 2) * w / 2, dy(rng, -4, 4, 2) * w / 2
+                fn = "a_pid_fuzzy_" + ("run", "pos", "inc", "zero")[mode]
+                if mode == 3:
+                    r = pid_step(st, par, 3, 0, 0)
+                else:
+                    e = X(set_) - X(fdb)
+                    g = fuzzy_gains(f, e, e - st["err"])
+                    if (g[0], g[1], g[2]) != (f["kp"], f["ki"], f["kd"]):
+                        active += 1
+                    par["kp"], par["ki"], par["kd"] = g
+                    r = pid_step(st, par, mode, set_, fdb)
+                row = [r, par["kp"], par["ki"], par["kd"], st["sum"], st["out"], st["var"], st["fdb"], st["err"]]
+                steps.append((mode, set_, fdb))
+                exp.extend(E(fn, row))
+        except Inexact:
+            pass
+        if not steps or not active:
+            continue
+        for mode, a, b in steps:
+            toks += [str(mode), hexf(a), hexf(b)]
+        exp.extend(E("a_pid_fuzzy_set_kpid", base))
+        cases.append(Case(" ".join(toks), "a_pid_fuzzy_pos", exp,
+                          {"nrule": nrule, "nfuzz": nfuzz, "operator": opr, "tables present (bit 0 mkp, 1 mki, 2 mkd)": mask,
+                           "base kp ki kd": [dec(v) for v in base], "summax summin outmax outmin": [dec(v) for v in lim],
+                           "me": [dec(v) for v in me_flat], "mec": [dec(v) for v in mec_flat], "mkp": [dec(v) for v in tabs[0]],
+                           "mki": [dec(v) for v in tabs[1]], "mkd": [dec(v) for v in tabs[2]],
+                           "steps (mode 0 run 1 pos 2 inc 3 zero, set, fdb)": [(m, dec(a), dec(b)) for m, a, b in steps]}))
+    return cases
+
+
+def gen_C12(rng, scale):
+    cases = []
+    # plain controller
+    while len(cases) < 230 * scale:
+        q = rng.choice([0, 0, 1, 2])
+        kp, ki, kd = dy(rng, 0, 4, q), dy(rng, 0, 3, q), dy(rng, 0, 3, q)
+        tight = rng.random() < 0.4
+        lim = [Fraction(rng.randint(1, 6)), -Fraction(rng.randint(1, 6)), Fraction(rng.randint(2, 12)), -Fraction(rng.randint(2, 12))] if tight else \
+              [Fraction(rng.randint(30, 60)), -Fraction(rng.randint(30, 60)), Fraction(rng.randint(100, 300)), -Fraction(rng.randint(100, 300))]
+        par = dict(zip(("kp", "ki", "kd", "summax", "summin", "outmax", "outmin"), [X(v) for v in [kp, ki, kd] + lim]))
+        st = {k: X(0) for k in ("sum", "out", "var", "fdb", "err")}
+        steps, exp = [], []
+        style = rng.choice(["mixed", "pos", "inc", "mixed"])
+        try:
+            for _ in range(rng.randint(2, 12)):
+                mode = {"mixed": rng.choice([0, 1, 1, 2, 2, 3]), "pos": rng.choice([1, 1, 1, 1, 3]), "inc": rng.choice([2, 2, 2, 2, 3])}[style]
+                set_, fdb = dy(rng, -6, 6, rng.choice([0, 1])), dy(rng, -6, 6, rng.choice([0, 1]))
+                r = pid_step(st, par, mode, set_, fdb)
+                steps.append((mode, set_, fdb))
+                exp.extend(E("a_pid_" + ("run", "pos", "inc", "zero")[mode], [r, st["sum"], st["out"], st["var"], st["fdb"], st["err"]]))
+        except Inexact:
+            pass
+        if not steps:
+            continue
+        exp.extend(E("a_pid_set_kpid", [kp, ki, kd] + lim))
+        toks = ["pid"] + [hexf(v) for v in [kp, ki, kd] + lim]
+        for m, a, b in steps:
+            toks += [str(m), hexf(a), hexf(b)]
+        cases.append(Case(" ".join(toks), "a_pid_pos", exp, {"kp ki kd": [dec(kp), dec(ki), dec(kd)], "summax summin outmax outmin": [dec(v) for v in lim],
+                                                             "steps (mode 0 run 1 pos 2 inc 3 zero, set, fdb)": [(m, dec(a), dec(b)) for m, a, b in steps]}))
+    # single neuron (the normalising quotient is exact when one channel carries all the weight, or when the learning rates are
+    # zero and the weights' magnitudes add up to a power of two)
+    n0 = len(cases)
+    tries = 0
+    while len(cases) - n0 < 110 * scale and tries < 6000 * scale:
+        tries += 1
+        k = Fraction(rng.choice([1, 2, 3, 1]), rng.choice([1, 2, 4]))
+        style = rng.choice(["p", "i", "d", "fixed", "fixed"])
+        if style == "fixed":
+            kk = [Fraction(0)] * 3
+            mags = rng.choice([[1, 2, 1], [2, 1, 1], [1, 1, 2], [4, 2, 2], [1, 4, 3], [3, 4, 1], [5, 2, 1], [1, 1, 6]])
+            ww = [Fraction(m * rng.choice([-1, 1]), 4) for m in mags]
+        else:
+            ch = "pid".index(style)
+            kk = [Fraction(0)] * 3
+            kk[ch] = Fraction(1, rng.choice([1, 2, 4, 8]))
+            ww = [Fraction(0)] * 3
+            ww[ch] = Fraction(rng.choice([-3, -2, -1, 1, 2, 3]), 2)
+        lim = [Fraction(rng.randint(2, 40)), -Fraction(rng.randint(2, 40))]
+        n = {"k": X(k), "kp": X(kk[0]), "ki": X(kk[1]), "kd": X(kk[2]), "wp": X(ww[0]), "wi": X(ww[1]), "wd": X(ww[2]), "ec": X(0),
+             "outmax": X(lim[0]), "outmin": X(lim[1])}
+        st = {x: X(0) for x in ("sum", "out", "var", "fdb", "err")}
+        steps, exp, learned = [], [], False
+        try:
+            for _ in range(rng.randint(2, 8)):
+                mode = rng.choice([0, 1, 1, 1, 2])
+                set_, fdb = dy(rng, -4, 4, rng.choice([0, 1])), dy(rng, -4, 4, rng.choice([0, 1]))
+                w_before = (n["wp"], n["wi"], n["wd"])
+                r = neuro_step(st, n, mode, set_, fdb)
+                learned = learned or w_before != (n["wp"], n["wi"], n["wd"])
+                steps.append((mode, set_, fdb))
+                exp.extend(E("a_pid_neuro_" + ("run", "inc", "zero")[mode], [r, st["out"], n["wp"], n["wi"], n["wd"], n["ec"], st["var"], st["fdb"], st["err"]]))
+        except Inexact:
+            pass
+        if len(steps) < 2 or (style != "fixed" and not learned and rng.random() < 0.8):
+            continue
+        exp.extend(E("a_pid_neuro_set_kpid", [k] + kk))
+        toks = ["neuro"] + [hexf(v) for v in [k] + kk + ww + lim]
+        for m, a, b in steps:
+            toks += [str(m), hexf(a), hexf(b)]
+        cases.append(Case(" ".join(toks), "a_pid_neuro_inc", exp, {"k kp ki kd": [dec(v) for v in [k] + kk], "wp wi wd": [dec(v) for v in ww],
+                                                                   "outmax outmin": [dec(v) for v in lim],
+                                                                   "steps (mode 0 run 1 inc 2 zero, set, fdb)": [(m, dec(a), dec(b)) for m, a, b in steps]}))
+    cases += gen_fuzzy_cases(rng, 90 * scale)
+    cases += gen_eps_cases(rng, 18 * scale)
+    cases += prec_C12(rng, 60 * scale)
+    return cases, ("C12: precision cases: a_pid run/pos/inc histories with inactive limits; epsilon cases: one-step fuzzy histories whose only "
+                   "active set has a degree 2^-20 .. 2^-70, so that it is kept or dropped according to the configuration's A_REAL_EPSILON "
+                   "(expected gains differ between the builds, exactly).  a_pid run/pos/inc/zero histories (wide and tight limits, pos-only, inc-only, mixed) against the documented difference "
+                   "equations; a_pid_neuro run/inc/zero against the recurrences of the proved model coq/C12/PidDefs.v (one weight channel "
+                   "learning at a time, or fixed weights whose magnitudes add up to a power of two, so that the normalising quotient is exact); "
+                   "a_pid_fuzzy histories (see C13) with every table and the scratch block of exactly A_PID_FUZZY_BFUZZ(nfuzz) bytes in the "
+                   "guarded pool: all exact")
+
+
+def gen_C13(rng, scale):
+    cases = []
+    # polynomial membership families: exact
+    n0 = 0
+    while n0 < 170 * scale:
+        tag = rng.choice([7, 8, 9, 10, 11, 12, 13])
+        w1, w2 = Fraction(2) ** rng.choice([-1, 0, 1, 2]), Fraction(2) ** rng.choice([-1, 0, 1, 2])
+        a = dy(rng, -4, 4, 1)
+        if tag in (7, 13):
+            b = a + w1
+            c = b + dy(rng, 0, 3, 1)
+            p = [a, b, c, c + w2]
+        elif tag == 8:
+            p = [a, a + w1, a + w1 + w2, Fraction(0)]
+        else:
+            p = [a, a + w1, Fraction(0), Fraction(0)]
+        lo, hi = p[0] - 1, max(p[:NPAR[tag]]) + 1
+        x = rng.choice([dy(rng, int(lo) - 1, int(hi) + 1, 3)] * 3 + p[:NPAR[tag]])
+        try:
+            y = mf_exact(tag, x, p[:NPAR[tag]])
+        except Inexact:
+            continue
+        cases.append(Case(" ".join(["mf", str(tag)] + [hexf(v) for v in [x] + p]), "a_mf_" + {7: "trap", 8: "tri", 9: "lins", 10: "linz", 11: "s", 12: "z", 13: "pi"}[tag],
+                          E("a_mf_" + {7: "trap", 8: "tri", 9: "lins", 10: "linz", 11: "s", 12: "z", 13: "pi"}[tag], [y]) + E("a_mf", [y]),
+                          {"tag": tag, "x": dec(x), "parameters": [dec(v) for v in p[:NPAR[tag]]]}))
+        n0 += 1
+    # exp / pow families: binary64 reference, moderate arguments
+    for k in range(90 * scale):
+        tag = rng.choice([1, 2, 3, 4, 5, 6])
+        nm = {1: "gauss", 2: "gauss2", 3: "gbell", 4: "sig", 5: "dsig", 6: "psig"}[tag]
+        x = dy(rng, -3, 3, 4)
+        if tag == 1:
+            p = [dy(rng, 1, 3, 2) + Fraction(1, 4), dy(rng, -2, 2, 2), Fraction(0), Fraction(0)]
+        elif tag == 2:
+            c1 = dy(rng, -2, 0, 2)
+            p = [dy(rng, 1, 2, 2) + Fraction(1, 4), c1, dy(rng, 1, 2, 2) + Fraction(1, 2), c1 + dy(rng, 0, 2, 2)]
+        elif tag == 3:
+            p = [dy(rng, 1, 3, 2) + Fraction(1, 4), Fraction(rng.choice([1, 2, 3, 4]), 2), dy(rng, -2, 2, 2), Fraction(0)]
+        else:
+            p = [dy(rng, 1, 3, 2) * rng.choice([-1, 1]) + Fraction(1, 4), dy(rng, -2, 2, 2), dy(rng, 1, 3, 2) + Fraction(1, 2), dy(rng, -2, 2, 2)]
+        ref = mf_float(tag, float(x), [float(v) for v in p])
+        cases.append(Case(" ".join(["mf", str(tag)] + [hexf(v) for v in [x] + p]), "a_mf_" + nm,
+                          [("a_mf_" + nm, "~", (ref, 1.0)), ("a_mf", "~", (ref, 1.0))], {"tag": tag, "x": dec(x), "parameters": [dec(v) for v in p[:NPAR[tag]]]}))
+    # operators
+    for k in range(80 * scale):
+        a, b, g = X(dy(rng, 0, 1, 4)), X(dy(rng, 0, 1, 4)), dy(rng, 0, 1, 2)
+        fa, fb = float(a.v), float(b.v)
+        equ = math.sqrt(fa * fb) * math.sqrt(1 - (1 - fa) * (1 - fb))
+        if fa * fb == 0 and float(g) == 1:
+            continue            # 0 ** 0
+        equg = (fa * fb) ** (1 - float(g)) * (1 - (1 - fa) * (1 - fb)) ** float(g)
+        exp = E("a_fuzzy_not", [1 - a]) + [("a_fuzzy_" + nm, "=", fuzzy_op(i, a, b).v) for i, nm in
+                                           ((1, "cap"), (2, "cap_algebra"), (3, "cap_bounded"), (4, "cup"), (5, "cup_algebra"), (6, "cup_bounded"))]
+        exp += [("a_fuzzy_equ", "~", (equ, 1.0)), ("a_fuzzy_equ_", "~", (equg, 1.0)), ("a_pid_fuzzy_opr", "~", (equ, 1.0))]
+        exp += [("a_pid_fuzzy_opr", "=", fuzzy_op(i, a, b).v) for i in range(1, 7)] + [("a_pid_fuzzy_opr", "~", (equ, 1.0))]
+        cases.append(Case("op %s %s %s" % (hexf(a), hexf(b), hexf(g)), "a_fuzzy_cap", exp, {"a": dec(a), "b": dec(b), "gamma": dec(g)}))
+    cases += gen_fuzzy_cases(rng, 120 * scale)
+    cases += gen_eps_cases(rng, 24 * scale)
+    cases += prec_C13(rng, 70 * scale)
+    return cases, ("C13: precision cases: trap/tri/lins/linz/s/z/pi on full-mantissa parameters; epsilon cases: one-step fuzzy histories whose "
+                   "only active set has a degree 2^-20 .. 2^-70, kept or dropped according to the configuration's A_REAL_EPSILON (expected gains "
+                   "differ between the builds, exactly).  trap/tri/lins/linz/s/z/pi and the dispatcher a_mf on dyadic parameters with power-of-two widths (break points "
+                   "included), the min/max/algebraic/bounded operators and a_pid_fuzzy_opr, and fuzzy-controller histories whose membership "
+                   "tables are ordered partitions (shoulders + triangles on a power-of-two grid), with the operators min, product, bounded "
+                   "product, max, algebraic sum, bounded sum, present and NULL rule tables, and only histories kept whose joint membership sums "
+                   "are powers of two and in which the scheduling changes a gain - expected gains = base + weighted mean of the consequents of "
+                   "the active rules, then the documented PID equations: all exact; every table and the scratch block of exactly "
+                   "A_PID_FUZZY_BFUZZ(nfuzz) bytes live in the guarded pool (nfuzz even: an odd count misaligns the value region of the block for long double, an observation outside the property "
+                   "recorded under glue_cfg_observations_outside_property). gauss/gauss2/gbell/sig/dsig/psig (exp, pow) and the equilibrium "
+                   "operators (sqrt, pow) are compared with a binary64 reference on moderate arguments within 1e-5 + 1e-6 (float; 1e-9 + 1e-12 "
+                   "otherwise)")
+
+
+# ------------------------------------------------------------------------------------------------------------ C14
+def trap_ref(vm, ac, de, p0, p1, v0, v1, N=X, xsqrt=xsqrt):
+    """a_trajtrap_gen by the equations documented in a/trajtrap.h, on exact values (Inexact when a step does not fit).
+    Returns (duration, [t p0 p1 v0 v1 vc ta td pa pd ac de]) for a positive duration, else None.  N, xsqrt: X and the exact square
+    root (exact case) or S and ssqrt (precision case)."""
+    X = N       # noqa: N806
+    vm, ac, de, p0, p1, v0, v1 = [X(v) for v in (vm, ac, de, p0, p1, v0, v1)]
+    half = Fraction(1, 2)
+    if ac == de:
+        return None
+    if vm < 0:
+        vm = -vm
+    if vm == 0:
+        return None
+    v0, v1 = sat(v0, -vm, vm), sat(v1, -vm, vm)
+    p = p1 - p0
+    rev = p < 0
+    v02, v12 = v0 * v0, v1 * v1
+    vc2 = (v12 * ac - v02 * de - 2 * p * ac * de) / (ac - de)
+    if vc2 <= 0:
+        return None
+    if vc2 > vm * vm:                                   # acceleration, constant velocity, deceleration
+        vc = -vm if rev else vm
+        ta = (vc - v0) / ac
+        t_d = (v1 - vc) / de
+        pa = p0 + v0 * ta + half * ac * ta * ta
+        pd = p1 - vc * t_d - half * de * t_d * t_d
+        td = ta + (pd - pa) / vc
+        t = t_d + td
+    elif vc2 > v02 and vc2 <= v12:                      # acceleration only
+        v1 = xsqrt(v02 + 2 * p * ac)
+        v1 = -v1 if rev else v1
+        vc = v1
+        t = (v1 - v0) / ac
+        ta = td = t
+        pa = p0 + v0 * t + half * ac * t * t
+        pd = p1
+    elif vc2 <= v02 and vc2 > v12:                      # deceleration only
+        v1 = xsqrt(v02 + 2 * p * de)
+        v1 = -v1 if rev else v1
+        vc = v0
+        t = (v1 - v0) / de
+        ta = td = X(0)
+        pa = pd = p0
+    else:                                               # acceleration, deceleration
+        vc = xsqrt(vc2)
+        vc = -vc if rev else vc
+        ta = (vc - v0) / ac
+        td = ta
+        pa = p0 + v0 * ta + half * ac * ta * ta
+        t = ta + (v1 - vc) / de
+        pd = pa
+    if not t > 0:
+        return None
+    return t, [t, p0, p1, v0, v1, vc, ta, td, pa, pd, ac, de]
+
+
+def trap_eval(f, x, N=X):
+    """position, velocity, acceleration at x (acceleration None on a phase boundary, where it is a convention)"""
+    X = N       # noqa: N806
+    t, p0, p1, v0, v1, vc, ta, td, pa, pd, ac, de = f
+    x = X(x)
+    half = Fraction(1, 2)
+    on_edge = False if N is S else (x == 0 or x == ta or x == td or x == t)
+    if x <= 0:
+        return p0, v0, (None if on_edge else X(0))
+    if x < ta:
+        return p0 + v0 * x + half * ac * x * x, v0 + ac * x, (None if on_edge else ac)
+    if x < td:
+        return pa + vc * (x - ta), vc, (None if on_edge else X(0))
+    if x < t:
+        y = x - td
+        return pd + vc * y + half * de * y * y, vc + de * y, (None if on_edge else de)
+    return p1, v1, (None if on_edge else X(0))
+
+
+def bell_ref(jm, am, vm, p0, p1, v0, v1):
+    """binary64 reference of a_trajbell_gen when both limits' tests are decided with a margin and a constant-velocity phase exists
+    (the documented double-S equations); None otherwise (those requests go through the bisection and are only judged by the
+    property's own clauses).  Returns [t tv ta td taj tdj p0 p1 v0 v1 vm jm am dm]."""
+    jm, am, vm = abs(jm), abs(am), abs(vm)
+    v0, v1 = min(max(v0, -vm), vm), min(max(v1, -vm), vm)
+    q0, q1, w0, w1 = (p0, p1, v0, v1) if p0 <= p1 else (-p0, -p1, -v0, -v1)
+    res = []
+    for w in (w0, w1):
+        d = (vm - w) * jm - am * am
+        if abs(d) < 0.08 * am * am:
+            return None
+        if d < 0:
+            tj = math.sqrt((vm - w) / jm)
+            res.append((tj, 2 * tj, jm * tj))
+        else:
+            tj = am / jm
+            res.append((tj, tj + (vm - w) / am, am))
+    (taj, ta, amax), (tdj, td, dmax) = res
+    tv = (q1 - q0) / vm - 0.5 * ta * (1 + w0 / vm) - 0.5 * td * (1 + w1 / vm)
+    if tv < 0.05 * (ta + td) + 0.02:
+        return None
+    return [ta + tv + td, tv, ta, td, taj, tdj, p0, p1, v0, v1, vm, jm, amax, -dmax]
+
+
+def gen_C14(rng, scale):
+    cases = []
+    # ---- trapezoid, exact: built from a chosen cruise/peak velocity and phase durations, judged by trap_ref
+    tries = 0
+    kinds = {"cruise": 0, "peak": 0, "acc": 0, "dec": 0}
+    while len(cases) < 200 * scale and tries < 40000 * scale:
+        tries += 1
+        dr = rng.choice([1, -1])
+        am, dm = rng.choice([(1, 1), (1, 3), (3, 1), (2, 2), (Fraction(1, 2), Fraction(1, 2)), (Fraction(1, 2), Fraction(3, 2)), (2, 6), (6, 2), (4, 4), (1, 7)])
+        ac, de = dr * Fraction(am), -dr * Fraction(dm)
+        shape = rng.choice(["cruise", "cruise", "peak", "peak", "acc", "dec"])
+        vc = dr * dy(rng, 1, 6, 1)
+        ta = Fraction(0) if shape == "dec" else Fraction(rng.randint(1, 12), 4)
+        t_d = Fraction(0) if shape == "acc" else Fraction(rng.randint(1, 12), 4)
+        v0, v1 = vc - ac * ta, vc + de * t_d
+        if abs(v0) > abs(vc) or abs(v1) > abs(vc) or (shape in ("peak", "acc", "dec") and (abs(v0) == abs(v1))):
+            continue
+        tc = Fraction(rng.randint(1, 12), 4) if shape == "cruise" else Fraction(0)
+        vm = abs(vc) if shape == "cruise" else abs(vc) + Fraction(rng.randint(1, 8), 2)
+        if rng.random() < 0.2:
+            vm = -vm
+        p0 = dy(rng, -6, 6, 1)
+        p1 = p0 + v0 * ta + ac * ta * ta / 2 + vc * tc + vc * t_d + de * t_d * t_d / 2
+        if kinds[shape] > 70 * scale:
+            continue
+        try:
+            ref = trap_ref(vm, ac, de, p0, p1, v0, v1)
+            if ref is None:
+                continue
+            T, f = ref
+            exp = E("a_trajtrap_gen", [T] + f)
+            xs = []
+            cand = [Fraction(0), f[6].v / 2, f[6].v, (f[6].v + f[7].v) / 2, f[7].v, (f[7].v + T.v) / 2, T.v, T.v + 1, Fraction(-1), T.v / 4, T.v * 3 / 4]
+            for x in rng.sample(cand, 6):
+                try:
+                    y, v, a = trap_eval(f, x)
+                except Inexact:
+                    continue
+                xs.append(x)
+                exp += E("a_trajtrap_pos", [y]) + E("a_trajtrap_vel", [v]) + ([("a_trajtrap_acc", "?", None)] if a is None else E("a_trajtrap_acc", [a]))
+        except Inexact:
+            continue
+        kinds[shape] += 1
+        args = [vm, ac, de, p0, p1, v0, v1]
+        cases.append(Case(" ".join(["trap"] + [hexf(v) for v in args + xs]), "a_trajtrap_gen", exp,
+                          {"vm ac de p0 p1 v0 v1": [dec(v) for v in args], "profile": shape, "query times": [dec(x) for x in xs]}))
+    ntrap_exact = len(cases)
+    # ---- requests that must be refused (nothing written but the request itself)
+    for k in range(12 * scale):
+        a = dy(rng, 1, 4, 1)
+        args = rng.choice([[Fraction(3), a, a, Fraction(0), Fraction(5), Fraction(1), Fraction(1)],
+                           [Fraction(0), a, -a, Fraction(0), Fraction(5), Fraction(1), Fraction(1)]])
+        cases.append(Case(" ".join(["trap"] + [hexf(v) for v in args]), "a_trajtrap_gen", E("a_trajtrap_gen", [0] + [777] * 12),
+                          {"vm ac de p0 p1 v0 v1": [dec(v) for v in args], "profile": "refused (ac == de or vm == 0): the object must stay untouched"}))
+    # ---- trapezoid, general feasible requests (sqrt not exact): between the configurations + the property's end-state clauses
+    fr = ["@0", "@0x1p-3", "@0x1p-2", "@0x1.8p-2", "@0x1p-1", "@0x1.4p-1", "@0x1.8p-1", "@0x1.cp-1", "@0x1.ffp-1", "@0x1p+0", "@0x1.2p+0"]
+
+    def trap_post(p0, p1, vmax):
+        def post(real, vals):
+            T = vals[0]
+            if not isinstance(T, Fraction) or T <= 0:
+                return "a feasible request was refused (duration %s)" % (T,)
+            tol = Fraction(1e-4 if real == 4 else 1e-9) * (abs(p0) + abs(p1) + 1)
+            rows = [vals[13 + 3 * i:16 + 3 * i] for i in range(len(fr))]
+            if any(not isinstance(v, Fraction) for r in rows for v in r):
+                return "a queried value is not finite"
+            if rows[0][0] != p0 or rows[9][0] != p1 or rows[10][0] != p1:
+                return "position at 0 / at the end / after the end is %s / %s / %s, requested %s / %s" % (float(rows[0][0]), float(rows[9][0]), float(rows[10][0]), float(p0), float(p1))
+            if abs(rows[8][0] - p1) > abs(vmax) * T / 400 + tol:
+                return "position just before the end is %s, the end position is %s" % (float(rows[8][0]), float(p1))
+            for r in rows:
+                if abs(r[1]) > abs(vmax) * (1 + Fraction(1e-5)) + tol:
+                    return "speed %s exceeds the limit %s" % (float(r[1]), float(vmax))
+            return None
+        return post
+    for k in range(70 * scale):
+        dr = rng.choice([1, -1])
+        vm, ac, de = f32ish(rng, 3, 6), dr * f32ish(rng, 1, 2), -dr * f32ish(rng, 2.2, 3.2)
+        p0 = dy(rng, -9, 9, 2)
+        p1 = p0 + dr * f32ish(rng, 2, 40)
+        v0, v1 = dr * f32ish(rng, 0.2, 1), dr * f32ish(rng, 1.1, 2)
+        args = [vm, ac, de, p0, p1, v0, v1]
+        exp = [("a_trajtrap_gen", "x", None)] * 13
+        for _ in fr:
+            exp += [("a_trajtrap_pos", "x", abs(p0) + abs(p1)), ("a_trajtrap_vel", "x", vm), ("a_trajtrap_acc", "?", None)]
+        cases.append(Case(" ".join(["trap"] + [hexf(v) for v in args] + fr), "a_trajtrap_gen", exp,
+                          {"vm ac de p0 p1 v0 v1": [dec(v) for v in args], "query times": "fractions of the duration: " + " ".join(fr)},
+                          post=trap_post(p0, p1, vm)))
+    # ---- trapezoid, precision cases: full-mantissa requests against the exact value of the documented equations
+    nprec = 0
+    while nprec < 60 * scale:
+        dr = rng.choice([1, -1])
+        vm, ac, de = f24(rng, 3, 6, sign=False), dr * f24(rng, 1, 2, sign=False), -dr * f24(rng, 2.2, 3.2, sign=False)
+        p0 = f24(rng, 0.5, 9)
+        p1 = p0 + dr * f24(rng, 2, 40, sign=False)
+        v0, v1 = dr * f24(rng, 0.2, 1, sign=False), dr * f24(rng, 1.1, 2, sign=False)
+        args = [vm, ac, de, p0, p1, v0, v1]
+        try:
+            if not all(fits(v, 24) for v in args):
+                continue
+            ref = trap_ref(*args, N=S, xsqrt=ssqrt)
+            if ref is None:
+                continue
+            T, f = ref
+            exp = P("a_trajtrap_gen", [T] + f)
+            xs = [Fraction(int(T.v * q * (1 << 18)), 1 << 18) for q in (rng.uniform(0.02, 0.2), rng.uniform(0.3, 0.6), rng.uniform(0.8, 0.98))]
+            for x in xs:
+                y, v, a = trap_eval(f, x, S)
+                exp += P("a_trajtrap_pos", [y]) + P("a_trajtrap_vel", [v]) + [("a_trajtrap_acc", "?", None)]
+        except Unstable:
+            continue
+        cases.append(Case(" ".join(["trap"] + [hexf(v) for v in args + xs]), "a_trajtrap_gen", exp,
+                          {"vm ac de p0 p1 v0 v1": [dec(v) for v in args], "query times": [dec(x) for x in xs]}))
+        nprec += 1
+    # ---- double S
+    def bell_post(p0, p1, vmax, amax, jmax):
+        def post(real, vals):
+            T = vals[0]
+            if not isinstance(T, Fraction) or T <= 0:
+                return "a feasible request was refused (duration %s)" % (T,)
+            tol = Fraction(1e-4 if real == 4 else 1e-9) * (abs(p0) + abs(p1) + 1)
+            f = vals[1:15]
+            if any(not isinstance(v, Fraction) for v in vals):
+                return "a value is not finite"
+            t, tv, ta, td, taj, tdj = f[:6]
+            if min(tv, ta, td, taj, tdj) < 0 or abs(ta + tv + td - t) > tol + Fraction(1e-5) * t:
+                return "phase durations tv=%s ta=%s td=%s taj=%s tdj=%s do not add up to t=%s or are negative" % tuple(float(v) for v in (tv, ta, td, taj, tdj, t))
+            rows = [vals[15 + 4 * i:19 + 4 * i] for i in range(len(fr))]
+            if rows[0][0] != p0 or rows[9][0] != p1 or rows[10][0] != p1:
+                return "position at 0 / at the end / after the end is %s / %s / %s, requested %s / %s" % (float(rows[0][0]), float(rows[9][0]), float(rows[10][0]), float(p0), float(p1))
+            if abs(rows[8][0] - p1) > abs(vmax) * T / 400 + tol:
+                return "position just before the end is %s, the end position is %s" % (float(rows[8][0]), float(p1))
+            slack = 1 + Fraction(1e-4 if real == 4 else 1e-9)
+            for r in rows:
+                if abs(r[1]) > vmax * slack + tol or abs(r[2]) > amax * slack + tol or abs(r[3]) > jmax * slack:
+                    return "speed / acceleration / jerk %s / %s / %s exceed the limits %s / %s / %s" % tuple(float(v) for v in (r[1], r[2], r[3], vmax, amax, jmax))
+            return None
+        return post
+    nb = 0
+    ncruise = 0
+    while nb < 150 * scale:
+        dr = rng.choice([1, -1])
+        jm, am, vm = f32ish(rng, 4, 12), f32ish(rng, 1.5, 4), f32ish(rng, 2.5, 6)
+        p0 = dy(rng, -9, 9, 2)
+        long_ = rng.random() < 0.75
+        p1 = p0 + dr * (f32ish(rng, 25, 80) if long_ else f32ish(rng, 3, 12))
+        v0, v1 = dr * f32ish(rng, 0.1, 1.2), dr * f32ish(rng, 0.1, 1.2)
+        args = [jm, am, vm, p0, p1, v0, v1]
+        ref = bell_ref(*[float(v) for v in args])
+        if long_ and ref is None:
+            continue
+        if ref is not None:
+            exp = A("a_trajbell_gen", [ref[0]] + ref)
+            mode = "x"
+            ncruise += 1
+        else:
+            exp = [("a_trajbell_gen", "?", None)] * 15      # the bisection decides: judged by the property's clauses below only
+            mode = "?"
+        for _ in fr:
+            # a query time is a fraction of the duration computed in a_real: it carries a relative error of one unit in the last place,
+            # which the acceleration (slope up to jm) turns into jm * t * eps: the size of the terms of an acceleration is jm * t
+            exp += [("a_trajbell_pos", mode, abs(p0) + abs(p1)), ("a_trajbell_vel", mode, vm), ("a_trajbell_acc", mode, (lambda d, j=jm: j * d[0])),
+                    ("a_trajbell_jer", "?", None)]
+        cases.append(Case(" ".join(["bell"] + [hexf(v) for v in args] + fr), "a_trajbell_gen", exp,
+                          {"jm am vm p0 p1 v0 v1": [dec(v) for v in args], "query times": "fractions of the duration: " + " ".join(fr),
+                           "kind": "limits reached with a constant-velocity phase" if ref is not None else "short move (acceleration reduced by the bisection)"},
+                          post=bell_post(p0, p1, vm, am, jm)))
+        nb += 1
+    return cases, ("C14: precision cases: the trapezoid generator and its position / velocity on full-mantissa requests (square roots to 2^-400). "
+                   "%d trapezoid requests built from dyadic phase durations (cruise, peak, acceleration-only, deceleration-only, both "
+                   "directions, perfect-square peak velocities) judged exactly by the equations documented in a/trajtrap.h, position / velocity / "
+                   "acceleration at phase boundaries, mid-phases and outside [0, t]; refused requests must leave the object untouched. "
+                   "Requests whose square roots are not exact: the trapezoid's duration, fields, position and velocity at 11 fractions of the "
+                   "duration are compared between the configurations (1e-5 + 1e-6 for float, 1e-9 + 1e-12 for long double, against the double "
+                   "build) and judged by the property's clauses (starts at p0, ends at p1, speed within the limit); the double-S generator "
+                   "(sqrt, data-dependent bisection) is compared with a binary64 reference of the documented limit-reached equations when a "
+                   "constant-velocity phase exists and the limit tests are decided with a margin (%d of %d requests), position / velocity / "
+                   "acceleration then also between the configurations; short moves that go through the bisection are judged only by the "
+                   "property's clauses (non-negative phases adding up to t, end points, limits) in each configuration"
+                   % (ntrap_exact, ncruise, nb))
+
+
+# ------------------------------------------------------------------------------------------------------------ precision cases
+def prec_C16(rng, n):
+    cases = []
+    while len(cases) < n:
+        kind = rng.choice(["tf", "tf", "lpf", "hpf"])
+        try:
+            if kind == "tf":
+                nn, nd = rng.randint(1, 4), rng.randint(0, 3)
+                num = [f24(rng, 0.1, 2) for _ in range(nn)]
+                den = [f24(rng, 0.05, 0.4) for _ in range(nd)]
+                toks = ["tf", str(nn), str(nd)] + [hexf(v) for v in num + den] + ["0"]
+                exp = E("a_tf_init", [0] * (nn + nd))
+                hu, hy = [S(0)] * nn, [S(0)] * nd
+                us = []
+                for _ in range(rng.randint(3, 6)):
+                    u = f24(rng, 0.1, 5)
+                    hu = ([S(u)] + hu)[:nn]
+                    y = S(0)
+                    for i in range(nn):
+                        y = y + S(num[i]) * hu[i]
+                    for j in range(nd):
+                        y = y - S(den[j]) * hy[j]
+                    hy = ([y] + hy)[:nd]
+                    toks += ["1", hexf(u)]
+                    exp += P("a_tf_iter", [y])
+                    us.append(u)
+                exp += P("a_tf_iter", hu + hy) + E("a_tf_init", [nn, nd, 1])
+                cases.append(Case(" ".join(toks), "a_tf_iter", exp, {"num": [dec(v) for v in num], "den": [dec(v) for v in den], "inputs": [dec(v) for v in us]}))
+            else:
+                alpha = f24(rng, 0.05, 0.95, sign=False)
+                out, xin, xs, exp = S(0), S(0), [], []
+                for _ in range(rng.randint(2, 8)):
+                    x = f24(rng, 0.1, 8)
+                    out = out * (1 - S(alpha)) + S(x) * S(alpha) if kind == "lpf" else S(alpha) * (out + S(x) - xin)
+                    xin = S(x)
+                    xs.append(x)
+                    exp += P("a_%s_iter" % kind, [out])
+                exp += E("a_%s_init" % kind, [alpha]) + P("a_%s_iter" % kind, [out]) + (E("a_hpf_iter", [xs[-1]]) if kind == "hpf" else [])
+                exp += E("a_%s_zero" % kind, [0] + ([0] if kind == "hpf" else []))
+                cases.append(Case(" ".join([kind, hexf(alpha)] + [hexf(x) for x in xs]), "a_%s_iter" % kind, exp, {"alpha": dec(alpha), "inputs": [dec(x) for x in xs]}))
+        except Unstable:
+            continue
+    return cases
+
+
+def _inverse_rows(order, ts):
+    """row k: the coefficients with which the boundary values [p0 p1 v0 v1 ...] enter c_k (exact)"""
+    n = order + 1
+    half = n // 2
+    cols = []
+    for j in range(n):
+        b0, b1 = [Fraction(0)] * half, [Fraction(0)] * half
+        (b0 if j % 2 == 0 else b1)[j // 2] = Fraction(1)
+        cols.append(solve_boundary(order, ts, b0, b1))
+    return [[cols[j][k] for j in range(n)] for k in range(n)]
+
+
+def s_horner(cs, x):
+    y = cs[-1]
+    for c in reversed(cs[:-1]):
+        y = y * S(x) + c
+    return y
+
+
+def s_deriv(cs, d):
+    out = list(cs)
+    for _ in range(d):
+        out = [out[i] * i for i in range(1, len(out))]
+    return out
+
+
+def prec_C15(rng, n):
+    cases = []
+    while len(cases) < n:
+        kind = rng.choice(["poly", "p3", "p5", "p7"])
+        try:
+            if kind == "poly":
+                k = rng.randint(1, 8)
+                a = [f24(rng, 0.1, 4) for _ in range(k)]
+                x = f24(rng, 0.25, 2)
+                ev, er = s_horner([S(v) for v in a], x), s_horner([S(v) for v in a[::-1]], x)
+                exp = P("a_poly_eval", [ev]) + P("a_poly_evar", [er]) + P("a_poly_eval_", [ev]) + P("a_poly_evar_", [er])
+                exp += E("a_poly_swap", a[::-1]) + E("a_poly_swap_", a)
+                cases.append(Case(" ".join(["poly", str(k)] + [hexf(v) for v in a] + [hexf(x)]), "a_poly_eval", exp,
+                                  {"coefficients": [dec(v) for v in a], "x": dec(x)}))
+                continue
+            order = int(kind[1])
+            half = (order + 1) // 2
+            ts = f24(rng, 0.5, 4, sign=False)
+            bc = [f24(rng, 0.2, 6) for _ in range(2 * half)]          # p0 p1 v0 v1 ...
+            bc0, bc1 = bc[0::2], bc[1::2]
+            val = solve_boundary(order, ts, bc0, bc1)
+            inv = _inverse_rows(order, ts)
+            fn = "a_trajpoly%d" % order
+            names = ("pos", "vel", "acc", "jer")[:3 if order < 7 else 4]
+            # query times: 0, ts and two interior times cut to 20 fractional bits (below 4: exact in binary32)
+            xs = [Fraction(0), ts] + [Fraction(int(ts * rng.uniform(0.1, 0.9) * (1 << 20)), 1 << 20) for _ in range(2)]
+
+            def build(loss):
+                cs = [S(val[k], sum(abs(inv[k][j] * bc[j]) for j in range(order + 1)) * loss, 10 + order) for k in range(order + 1)]
+                exp = P(fn + "_gen", cs)
+                for x in xs:
+                    for d, nm in enumerate(names):
+                        exp += P("%s_%s" % (fn, nm), [s_horner(s_deriv(cs, d), x)])
+                for d in range(len(names)):
+                    exp += P("%s_c%d" % (fn, d), s_deriv(cs, d))
+                return exp
+            # the septic multiplies by the binary64 constants (a_real)(1.0/2), (a_real)(1.0/6): in the long double build its coefficients are
+            # only as accurate as binary64 (2^11 epsilons of long double)
+            exp = build(1) if order < 7 else {4: build(1), 8: build(1), 16: build(1 << 11)}
+            args = [ts]
+            for a_, b_ in zip(bc0, bc1):
+                args += [a_, b_]
+            cases.append(Case(" ".join([kind] + [hexf(v) for v in args + xs]), fn + "_gen", exp,
+                              {"ts": dec(ts), "boundary (value at 0, value at ts) for p, v, a, j": [(dec(a_), dec(b_)) for a_, b_ in zip(bc0, bc1)],
+                               "x": [dec(x) for x in xs]}))
+        except Unstable:
+            continue
+    return cases
+
+
+def prec_C12(rng, n):
+    cases = []
+    while len(cases) < n:
+        kp, ki, kd = f24(rng, 0.2, 4, sign=False), f24(rng, 0.1, 2, sign=False), f24(rng, 0.1, 2, sign=False)
+        lim = [Fraction(1000), Fraction(-1000), Fraction(100000), Fraction(-100000)]
+        par = dict(zip(("kp", "ki", "kd", "summax", "summin", "outmax", "outmin"), [S(v) for v in [kp, ki, kd] + lim]))
+        st = {k: S(0) for k in ("sum", "out", "var", "fdb", "err")}
+        steps, exp = [], []
+        try:
+            for _ in range(rng.randint(3, 7)):
+                mode = rng.choice([0, 1, 1, 2, 2])
+                set_, fdb = f24(rng, 0.2, 6), f24(rng, 0.2, 6)
+                r = pid_step(st, par, mode, set_, fdb, S)
+                steps.append((mode, set_, fdb))
+                exp += P("a_pid_" + ("run", "pos", "inc")[mode], [r, st["sum"], st["out"], st["var"], st["fdb"], st["err"]])
+        except Unstable:
+            continue
+        exp += E("a_pid_set_kpid", [kp, ki, kd] + lim)
+        toks = ["pid"] + [hexf(v) for v in [kp, ki, kd] + lim]
+        for m, a, b in steps:
+            toks += [str(m), hexf(a), hexf(b)]
+        cases.append(Case(" ".join(toks), "a_pid_pos", exp, {"kp ki kd": [dec(kp), dec(ki), dec(kd)], "limits": "inactive",
+                                                             "steps (mode 0 run 1 pos 2 inc, set, fdb)": [(m, dec(a), dec(b)) for m, a, b in steps]}))
+    return cases
+
+
+def prec_C13(rng, n):
+    cases = []
+    names = {7: "trap", 8: "tri", 9: "lins", 10: "linz", 11: "s", 12: "z", 13: "pi"}
+    while len(cases) < n:
+        tag = rng.choice(list(names))
+        ps = sorted(f24(rng, 0.2, 8) for _ in range(NPAR[tag]))
+        if any(b - a < Fraction(1, 4) for a, b in zip(ps, ps[1:])):
+            continue
+        x = f24(rng, 0.1, 9)
+        try:
+            y = mf_exact(tag, x, ps, S)
+        except Unstable:
+            continue
+        if y.d == 0:
+            if rng.random() < 0.8:
+                continue            # outside the support / on the core: nothing is computed
+        p4 = ps + [Fraction(0)] * (4 - len(ps))
+        item = [("a_mf_" + names[tag], "p", y), ("a_mf", "p", y)] if y.d else E("a_mf_" + names[tag], [y.v]) + E("a_mf", [y.v])
+        cases.append(Case(" ".join(["mf", str(tag)] + [hexf(v) for v in [x] + p4]), "a_mf_" + names[tag], item,
+                          {"tag": tag, "x": dec(x), "parameters": [dec(v) for v in ps]}))
+    return cases
+
+
+def gen_eps_cases(rng, n):
+    """Fuzzy-controller histories of ONE step in which the only set the error activates has a degree between the machine epsilons of two
+    configurations: a set is active iff its degree exceeds A_REAL_EPSILON (float 2^-23, double 2^-52, long double 2^-63), so the scheduled
+    gains are the base gains in the narrower configuration and base + consequent in the wider one - exactly, in both."""
+    cases = []
+    while len(cases) < n:
+        k = rng.choice([20, 26, 30, 40, 50, 56, 58, 62, 70])      # degree 2^-k of the error's only active set
+        w = Fraction(4)
+        nrule = 3
+        # e-sets: triangles (0,4,8), (-16,-12,-8), (16,20,24): only the first is reached by e = 4 * 2^-k; ec-sets: a partition around 0
+        me = [(8, [Fraction(0), w, 2 * w]), (8, [-4 * w, -3 * w, -2 * w]), (8, [4 * w, 5 * w, 6 * w])]
+        mec_flat, mec = fuzzy_table(rng, nrule, Fraction(2))
+        me_flat = []
+        for t, ps in me:
+            me_flat += [Fraction(t)] + ps
+        opr = rng.choice([1, 2])
+        nn = nrule * nrule
+        vals = rng.sample(range(-3 * nn - 3, 3 * nn + 4), 3 * nn)
+        tabs = [[Fraction(v, 2) for v in vals[j * nn:(j + 1) * nn]] for j in range(3)]
+        base = [Fraction(v, 2) for v in rng.sample(range(1, 12), 3)]
+        lim = [Fraction(50), Fraction(-50), Fraction(300), Fraction(-300)]
+        e = w * Fraction(1, 1 << k)
+        # first step from the zero state: ec = e as well; the ec-partition gives e a degree close to one in its middle set... keep it simple:
+        # ec-sets must give exact degrees for ec = e: only a set with a flat core at 0 does
+        mec = [(7, [-2 * w, -w, w, 2 * w]), (8, [3 * w, 4 * w, 5 * w]), (8, [-5 * w, -4 * w, -3 * w])]
+        mec_flat = []
+        for t, ps in mec:
+            mec_flat += [Fraction(t)] + ps
+        toks = ["fuzzy", str(nrule), "2", str(opr), "7", str(len(me_flat)), str(len(mec_flat))]
+        toks += [hexf(v) for v in base + lim + me_flat + mec_flat + tabs[0] + tabs[1] + tabs[2]]
+        mode = rng.choice([1, 2])
+        toks += [str(mode), hexf(e), hexf(0)]
+        exp = {}
+        for real in (4, 8, 16):
+            active = Fraction(1, 1 << k) > EPS[real]
+            g = [base[j] + (tabs[j][0 * nrule + 0] if active else 0) for j in range(3)]      # rule (e-set 0, ec-set 0), joint degree 2^-k, normalised
+            par = dict(zip(("kp", "ki", "kd", "summax", "summin", "outmax", "outmin"), [Fraction(v) for v in g + lim]))
+            # one step from zero state, exact rational (the products with 2^-k are exact in every configuration that keeps the set)
+            err = e
+            if mode == 1:
+                sm = par["ki"] * err
+                out = par["kp"] * err + sm
+            else:
+                sm = Fraction(0)
+                out = par["kp"] * err + par["ki"] * err
+            fn = "a_pid_fuzzy_" + ("run", "pos", "inc")[mode]
+            exp[real] = E("a_pid_fuzzy_bfuzz", [1]) + [(fn, "=", v) for v in [out] + g + [sm, out, Fraction(0), Fraction(0), err]] + E("a_pid_fuzzy_set_kpid", base)
+        cases.append(Case(" ".join(toks), "a_pid_fuzzy_pos", exp,
+                          {"degree of the only active e-set": "2^-%d" % k, "operator": opr, "base kp ki kd": [dec(v) for v in base],
+                           "consequents of rule (0,0)": [dec(tabs[j][0]) for j in range(3)], "step": (mode, dec(e), "0"),
+                           "expected": "gains = base + consequent where 2^-%d > A_REAL_EPSILON of the configuration, else base" % k}))
+    return cases
+
+
+GENERATORS = {"C12": gen_C12, "C13": gen_C13, "C14": gen_C14, "C15": gen_C15, "C16": gen_C16}
